@@ -11,6 +11,7 @@ Directive block
     //@drop <segment>                   container items: drop this member
     //@member <text>                    add a (tagged) line at the start of the container body
     //@rw <RULE> /regex/ => /repl/      declared text rewrite on the extracted (comment-free) text
+    //@until N "pat"                    (slices) the slice ends just before the N-th occurrence of pat after its start
     //@requires [id] expr               precondition of the target fn
     //@ensures [id] expr                postcondition
     //@inv <n> [id] expr                invariant of the n-th loop (source order) of the target fn
@@ -502,6 +503,9 @@ def extract_item(block, unit, fired_total, clauses, meta_items, mode='verus'):
                             end = k - 1
                             break
                 k += 1
+        if dget('until'):
+            # statement slice ending just before the (first) statement that starts with the pattern
+            end = find_stmt(dget('until'), a) - 1
         if end is None:
             raise GenError('slice end not found')
         orig = src[toks[a].start:toks[end].end]
@@ -690,7 +694,7 @@ def extract_item(block, unit, fired_total, clauses, meta_items, mode='verus'):
             tgt, tk = locate(text, cur_segs)
             ls = line_start(text, tk[tgt.first].start)
             add(ls, tag_lines(a, 'attr', '    '))
-        elif w in ('ret', 'rw', 'only', 'drop', 'name', 'semi', 'from', 'to', 'head', 'tail', 'r6', 'r11', 'expr', 'skip', 'braces'):
+        elif w in ('ret', 'rw', 'only', 'drop', 'name', 'semi', 'from', 'to', 'head', 'tail', 'r6', 'r11', 'expr', 'skip', 'braces', 'until'):
             pass
         else:
             raise GenError('template line %s: unknown directive %r' % (ln, w))
